@@ -237,6 +237,7 @@ class TrioConn:
             self.sent_after_close += len(data)
 
     def eof(self) -> None:
+        self.client_eof = True
         self.log.add("ceof", conn=self.cid)
         self.stream.feed_eof()
 
@@ -313,9 +314,10 @@ class TrioEnv:
     async def set_terminated(self) -> None:
         await self.context.terminated.set()
 
-    def spawn_at(self, dt: float, passes: int, fn: Callable[[], Awaitable[Any]]) -> None:
+    def spawn_at(self, dt: float, passes: int, fn: Callable[[], Awaitable[Any]],
+                 at_abs: Optional[float] = None) -> None:
         """See AioEnv.spawn_at: an action that interleaves with the work of its instant."""
-        deadline = trio.current_time() + dt
+        deadline = trio.current_time() + dt if at_abs is None else at_abs
 
         async def runner() -> None:
             await trio.sleep_until(deadline)
